@@ -1,11 +1,11 @@
 """C10 - pixel and ASCII renderings are faithful and invertible."""
 ID = "C10"
 LEVEL = "proof"
-LEVEL_TEXT = "PROVED (unbounded, z3): the black/white image builder (shape (2r+1,2c+1), cell pixels open, the pixel between two adjacent cells open exactly when connected, everything else wall - four loop invariants) and its reader (_from_pixel_grid_bw recovers exactly those bits for every odd-sized image); the lemma from_bw(as_bw(m)) == m over those two contracts; and as_pixels for all three kinds and all flag combinations (START/END on their cells whenever endpoints are requested, PATH on exactly the solution's cells and in-between pixels, everything else the black/white picture; ValueError exactly for show_solution without show_endpoints; two loop invariants). The reordering walk of from_pixels and the ASCII text assembly/parsing are decided by the bounded stand-in only. Bounded: image geometry, border, cell/edge pixels, endpoint and path colours, the ASCII text, and both read-back directions for all connection structures up to 2x3/3x2 (sampled or all 4096 on 3x3), all three kinds, all start != end pairs with all their shortest paths and all accepted flag combinations."
+LEVEL_TEXT = "PROVED (unbounded, z3): the black/white image builder (shape (2r+1,2c+1), cell pixels open, the pixel between two adjacent cells open exactly when connected, everything else wall - four loop invariants) and its reader (_from_pixel_grid_bw recovers exactly those bits for every odd-sized image); the lemma from_bw(as_bw(m)) == m over those two contracts; and as_pixels for all three kinds and all flag combinations (START/END on their cells whenever endpoints are requested, PATH on exactly the solution's cells and in-between pixels, everything else the black/white picture; ValueError exactly for show_solution without show_endpoints; two loop invariants); color_in_pixel_grid (a colour is present iff some pixel has it) and detect_pixels_type (solved iff endpoints and path pixels are present, targeted iff only endpoints, else plain). The reordering walk of from_pixels and the ASCII text assembly/parsing are decided by the bounded stand-in only. Bounded: image geometry, border, cell/edge pixels, endpoint and path colours, the ASCII text, and both read-back directions for all connection structures up to 2x3/3x2 (sampled or all 4096 on 3x3), all three kinds, all start != end pairs with all their shortest paths and all accepted flag combinations."
 LEVEL_NOTE = 'Trusted: numpy.'
 TECHNIQUE = "contracts on the leaf functions discharged by z3 (pyvc) + bounded stand-in of the contract-based verifier: run-time checking of the real code against an independent executable statement over an enumerated scope (the proved leaf functions are listed in evidence; the property as a whole is decided by the bounded stand-in)"
 CONTRACT_MODULES = ['contracts.pixels']
-PROVE = [('maze_dataset/maze/lattice_maze.py', 'LatticeMaze._as_pixels_bw'), ('maze_dataset/maze/lattice_maze.py', 'LatticeMaze._from_pixel_grid_bw'), ('maze_dataset/maze/lattice_maze.py', 'LatticeMaze.as_pixels'), ('/verif/contracts/lemmas_src.py', 'bw_roundtrip')]
+PROVE = [('maze_dataset/maze/lattice_maze.py', 'LatticeMaze._as_pixels_bw'), ('maze_dataset/maze/lattice_maze.py', 'LatticeMaze._from_pixel_grid_bw'), ('maze_dataset/maze/lattice_maze.py', 'LatticeMaze.as_pixels'), ('/verif/contracts/lemmas_src.py', 'bw_roundtrip'), ('maze_dataset/maze/lattice_maze.py', 'color_in_pixel_grid'), ('maze_dataset/maze/lattice_maze.py', 'detect_pixels_type')]
 ASSUMPTIONS = []
 EXPLANATION = "see DESIGN.md C10"
 
